@@ -41,6 +41,7 @@ def units(tier):
     hs = (1, 2, 3) if tier == "quick" else (1, 2, 3, 4)
     out += [(f"horizon:{s[0]}{s[1]}", "u_horizon", {"spec": s, "hs": hs}) for s in HORIZON]
     out += [("degenerate-transition[T=2]", "u_degenerate", {"T": 2})]
+    out += [("degenerate-transition + second stochastic state, next_* declared in another order than the states [T=2]", "u_degenerate", {"T": 2, "second": True})]
     if tier == "thorough":
         out += [("degenerate-transition[T=3]", "u_degenerate", {"T": 3}), ("affine:TA[T=4]", "u_affine", {"spec": ("TA", dict(T=4))})]
     return out
@@ -243,10 +244,33 @@ def u_horizon(rec, spec, hs):
 
 
 # ----------------------------------------------------------------------------------
-def _sto_det_models(T):
+def _sto_det_models(T, second=False):
     import jax.numpy as jnp
     import lcm
     from lcm import Model
+
+    if second:
+        # a second, genuinely stochastic state j; the functions dict lists next_j BEFORE next_h while the
+        # states dict lists h before j
+        def utility2(h, j, d, U):
+            return U[h, j, d]
+
+        @lcm.mark.stochastic
+        def next_h_sto2(h, d, _period):
+            pass
+
+        def next_h_det2(h, d, _period, D):
+            return D[h, d, _period]
+
+        @lcm.mark.stochastic
+        def next_j(j):
+            pass
+
+        st2 = dict(h=dg(2), j=dg(2))
+        ch2 = dict(d=dg(2))
+        sto = Model(n_periods=T, functions=dict(utility=utility2, next_j=next_j, next_h=next_h_sto2), choices=ch2, states=st2)
+        det = Model(n_periods=T, functions=dict(utility=utility2, next_j=next_j, next_h=next_h_det2), choices=ch2, states=st2)
+        return sto, det
 
     def utility(h, d, w, U, tw):
         return U[h, d] + tw * w
@@ -268,19 +292,25 @@ def _sto_det_models(T):
     return sto, det
 
 
-def u_degenerate(rec, T):
-    sto, det = _sto_det_models(T)
+def u_degenerate(rec, T, second=False):
+    sto, det = _sto_det_models(T, second)
     S = sj.Session()
     sj.SIDE.clear()
-    beta, U, tw = S.real("beta"), S.real("U", (2, 2)), S.real("tw")
+    beta, tw = S.real("beta"), S.real("tw")
+    U = S.real("U", (2, 2, 2) if second else (2, 2))
+    PJ = S.real("PJ", (2, 2)) if second else None
     D = S.int("D", (2, 2, T))
     Dt = sj.terms(D)
     P = np.empty((2, 2, T, 2), dtype=object)
     for i in np.ndindex(2, 2, T):
         for k in range(2):
             P[i + (k,)] = z3.If(Dt[i] == k, z3.RealVal(1), z3.RealVal(0))
-    p_sto = {"beta": beta, "utility": {"U": U, "tw": tw}, "next_h": {}, "next_w": {}, "shocks": {"h": S.lift(P)}}
-    p_det = {"beta": beta, "utility": {"U": U, "tw": tw}, "next_h": {"D": D}, "next_w": {}}
+    if second:
+        p_sto = {"beta": beta, "utility": {"U": U}, "next_h": {}, "next_j": {}, "shocks": {"h": S.lift(P), "j": PJ}}
+        p_det = {"beta": beta, "utility": {"U": U}, "next_h": {"D": D}, "next_j": {}, "shocks": {"j": PJ}}
+    else:
+        p_sto = {"beta": beta, "utility": {"U": U, "tw": tw}, "next_h": {}, "next_w": {}, "shocks": {"h": S.lift(P)}}
+        p_det = {"beta": beta, "utility": {"U": U, "tw": tw}, "next_h": {"D": D}, "next_w": {}}
     f_sto, _ = get_function(sto, "solve", False)
     f_det, _ = get_function(det, "solve", False)
     rec.symbols = S.symbols
@@ -295,7 +325,13 @@ def u_degenerate(rec, T):
         Pc = np.zeros((2, 2, T, 2))
         for i in np.ndindex(2, 2, T):
             Pc[i + (int(Dc[i]),)] = 1.0
-        b, Uc, twc = C.real("beta"), C.real("U", (2, 2)), C.real("tw")
+        b, twc = C.real("beta"), C.real("tw")
+        if second:
+            Uc, PJc = C.real("U", (2, 2, 2)), C.real("PJ", (2, 2))
+            a = f_sto({"beta": b, "utility": {"U": Uc}, "next_h": {}, "next_j": {}, "shocks": {"h": jnp.asarray(Pc), "j": PJc}})
+            d = f_det({"beta": b, "utility": {"U": Uc}, "next_h": {"D": jnp.asarray(Dc)}, "next_j": {}, "shocks": {"j": PJc}})
+            return [np.asarray(x) for x in a], [np.asarray(x) for x in d]
+        Uc = C.real("U", (2, 2))
         a = f_sto({"beta": b, "utility": {"U": Uc, "tw": twc}, "next_h": {}, "next_w": {}, "shocks": {"h": jnp.asarray(Pc)}})
         d = f_det({"beta": b, "utility": {"U": Uc, "tw": twc}, "next_h": {"D": jnp.asarray(Dc)}, "next_w": {}})
         return [np.asarray(x) for x in a], [np.asarray(x) for x in d]
